@@ -387,6 +387,9 @@ package zygo
 //@ sweepfile C01 arrayutils.go
 // (not swept: MakeHash and fillJsonMap are reflection-heavy builders whose loop facts the solvers do not settle in time; ListLen counts an unbounded list)
 //@ sweepreach C01 except MakeHash, fillJsonMap, ListLen
+// the sweep also asks for nil: where a swept function dereferences what a callee or a map handed
+// back (a field access, a load, an interface method call), the value must be provably non-nil there
+//@ nilsweep C01
 //@ sweep C01 (*SexpHashSelector).AssignToSelection, (*SexpHashSelector).RHS, (*SexpSymbol).AssignToSelection, (*SexpSymbol).RHS
 
 // Fields set once by their constructors: existing objects keep them across any call.
